@@ -2,312 +2,26 @@
 """Fail-closed translator: /repo source (Python ast) -> Coq *data* under coq/gen/.
 
 Only declarative facts are translated (constants, slice assignments with constant bounds,
-dispatch conditions, decorator arguments, signatures).  Anything in a tracked function that is
-not in the recognised shape raises TranslateError; the caller records that as a broken obligation.
+dispatch conditions, decorator arguments, signatures, write sites).  Anything in a tracked
+function that is not in the recognised shape raises TranslateError; the generated file is then
+removed (fail closed) and the caller records a broken obligation.
+
+Generators live in tools/gen_*.py, each exporting GENERATORS = {name: function(repo) -> text}.
 
 usage: translate.py [--repo /repo] [--out /verif/coq/gen] [names...]   (default: all generators)
 """
-import ast
+import glob
+import importlib
 import os
 import sys
 
-REPO = os.environ.get('VERIF_REPO', '/repo')
+sys.path.insert(0, os.path.dirname(os.path.abspath(__file__)))
+from trlib import REPO, TranslateError  # noqa: E402
 
-
-class TranslateError(Exception):
-    pass
-
-
-def _parse(relpath, repo=None):
-    path = os.path.join(repo or REPO, relpath)
-    with open(path) as f:
-        src = f.read()
-    return ast.parse(src, filename=path), src
-
-
-def _func(tree, name):
-    for node in ast.walk(tree):
-        if isinstance(node, (ast.FunctionDef,)) and node.name == name:
-            return node
-    raise TranslateError(f'function {name} not found')
-
-
-def _body_wo_doc(fn):
-    body = list(fn.body)
-    if body and isinstance(body[0], ast.Expr) and isinstance(body[0].value, ast.Constant) \
-            and isinstance(body[0].value.value, str):
-        body = body[1:]
-    return body
-
-
-def const_eval(node, env):
-    """Evaluates an integer-valued constant expression over env (names -> int)."""
-    if isinstance(node, ast.Constant):
-        v = node.value
-        if isinstance(v, bool) or not isinstance(v, (int, float)):
-            raise TranslateError(f'non-numeric constant {v!r}')
-        if isinstance(v, float):
-            if v != int(v):
-                raise TranslateError(f'non-integer constant {v!r}')
-            v = int(v)
-        return v
-    if isinstance(node, ast.Name):
-        if node.id in env:
-            return env[node.id]
-        raise TranslateError(f'unknown name {node.id}')
-    if isinstance(node, ast.UnaryOp) and isinstance(node.op, ast.USub):
-        return -const_eval(node.operand, env)
-    if isinstance(node, ast.UnaryOp) and isinstance(node.op, ast.UAdd):
-        return const_eval(node.operand, env)
-    if isinstance(node, ast.BinOp) and isinstance(node.op, (ast.Add, ast.Sub, ast.Mult)):
-        a, b = const_eval(node.left, env), const_eval(node.right, env)
-        return {ast.Add: a + b, ast.Sub: a - b, ast.Mult: a * b}[type(node.op)]
-    raise TranslateError(f'unsupported constant expression: {ast.dump(node)}')
-
-
-def zlit(v):
-    return f'({v})' if v < 0 else str(v)
-
-
-def optz(v):
-    return 'None' if v is None else f'(Some {zlit(v)})'
-
-
-# --------------------------------------------------------------------------------------------
-# GenBands.v : _diff_1_diags, _diff_2_diags, _diff_3_diags and the dispatch of
-#              diff_penalty_diagonals
-# --------------------------------------------------------------------------------------------
-
-def _colspec(node, env):
-    if isinstance(node, ast.Slice):
-        if node.step is not None:
-            raise TranslateError('slice with step')
-        lo = None if node.lower is None else const_eval(node.lower, env)
-        hi = None if node.upper is None else const_eval(node.upper, env)
-        return f'(Slc {optz(lo)} {optz(hi)})'
-    return f'(Idx {zlit(const_eval(node, env))})'
-
-
-def _target(node, env, arr_name):
-    if not (isinstance(node, ast.Subscript) and isinstance(node.value, ast.Name)
-            and node.value.id == arr_name):
-        raise TranslateError(f'unsupported assignment target: {ast.dump(node)}')
-    sl = node.slice
-    if not (isinstance(sl, ast.Tuple) and len(sl.elts) == 2):
-        raise TranslateError('target is not a 2-d subscript')
-    row = const_eval(sl.elts[0], env)
-    return row, _colspec(sl.elts[1], env)
-
-
-def _band_stmts(stmts, env, cond, arr_name, out):
-    for st in stmts:
-        if isinstance(st, ast.Assign):
-            val = const_eval(st.value, env)
-            for tgt in st.targets:
-                row, col = _target(tgt, env, arr_name)
-                out.append(f'{{| a_cond := {cond}; a_row := {zlit(row)}; a_col := {col}; '
-                           f'a_val := {zlit(val)} |}}')
-        elif isinstance(st, ast.For):
-            if st.orelse or not isinstance(st.target, ast.Name):
-                raise TranslateError('unsupported for loop')
-            it = st.iter
-            if not (isinstance(it, ast.Call) and isinstance(it.func, ast.Name)
-                    and it.func.id == 'range' and not it.keywords):
-                raise TranslateError('for loop not over range(...)')
-            args = [const_eval(a, env) for a in it.args]
-            for v in range(*args):
-                env2 = dict(env)
-                env2[st.target.id] = v
-                _band_stmts(st.body, env2, cond, arr_name, out)
-        elif isinstance(st, ast.If):
-            t = st.test
-            if (cond == 'Always' and not st.orelse and isinstance(t, ast.UnaryOp)
-                    and isinstance(t.op, ast.Not) and isinstance(t.operand, ast.Name)
-                    and t.operand.id == 'lower_only'):
-                _band_stmts(st.body, env, 'IfFull', arr_name, out)
-            else:
-                raise TranslateError(f'unsupported if: {ast.dump(t)}')
-        else:
-            raise TranslateError(f'unsupported statement: {ast.dump(st)[:200]}')
-
-
-def _band_table(tree, name, order):
-    fn = _func(tree, name)
-    args = [a.arg for a in fn.args.args]
-    if args != ['data_size', 'lower_only']:
-        raise TranslateError(f'{name}: unexpected signature {args}')
-    body = _body_wo_doc(fn)
-    # output = np.full((A if lower_only else B, data_size), V)  |  np.ones((...))
-    first = body[0]
-    if not (isinstance(first, ast.Assign) and len(first.targets) == 1
-            and isinstance(first.targets[0], ast.Name)):
-        raise TranslateError(f'{name}: first statement is not the allocation')
-    arr_name = first.targets[0].id
-    call = first.value
-    if not (isinstance(call, ast.Call) and isinstance(call.func, ast.Attribute)
-            and isinstance(call.func.value, ast.Name) and call.func.value.id == 'np'
-            and not call.keywords):
-        raise TranslateError(f'{name}: unsupported allocation')
-    kind = call.func.attr
-    if kind == 'full' and len(call.args) == 2:
-        fill = const_eval(call.args[1], {})
-    elif kind == 'ones' and len(call.args) == 1:
-        fill = 1
-    elif kind == 'zeros' and len(call.args) == 1:
-        fill = 0
-    else:
-        raise TranslateError(f'{name}: unsupported allocation np.{kind}')
-    shape = call.args[0]
-    if not (isinstance(shape, ast.Tuple) and len(shape.elts) == 2
-            and isinstance(shape.elts[1], ast.Name) and shape.elts[1].id == 'data_size'):
-        raise TranslateError(f'{name}: unsupported shape')
-    rows = shape.elts[0]
-    if not (isinstance(rows, ast.IfExp) and isinstance(rows.test, ast.Name)
-            and rows.test.id == 'lower_only'):
-        raise TranslateError(f'{name}: unsupported row count')
-    rows_lower = const_eval(rows.body, {})
-    rows_full = const_eval(rows.orelse, {})
-    last = body[-1]
-    if not (isinstance(last, ast.Return) and isinstance(last.value, ast.Name)
-            and last.value.id == arr_name):
-        raise TranslateError(f'{name}: does not end with return {arr_name}')
-    out = []
-    _band_stmts(body[1:-1], {}, 'Always', arr_name, out)
-    asgs = ';\n    '.join(out)
-    return (f'Definition {name.strip("_")} : table := {{|\n  t_order := {order}%nat;\n'
-            f'  t_rows_lower := {rows_lower};\n  t_rows_full := {rows_full};\n'
-            f'  t_fill := {zlit(fill)};\n  t_asgs := [\n    {asgs}\n  ] |}}.\n')
-
-
-def bool_expr(node, names):
-    """Python boolean/arith expression over integer names -> Coq bool/Z expression text."""
-    if isinstance(node, ast.BoolOp):
-        op = ' || ' if isinstance(node.op, ast.Or) else ' && '
-        return '(' + op.join(bool_expr(v, names) for v in node.values) + ')'
-    if isinstance(node, ast.UnaryOp) and isinstance(node.op, ast.Not):
-        return f'(negb {bool_expr(node.operand, names)})'
-    if isinstance(node, ast.Compare):
-        parts = []
-        left = node.left
-        for op, right in zip(node.ops, node.comparators):
-            sym = {ast.Lt: '<?', ast.LtE: '<=?', ast.Gt: '>?', ast.GtE: '>=?',
-                   ast.Eq: '=?'}.get(type(op))
-            if sym is None:
-                if isinstance(op, ast.NotEq):
-                    parts.append(f'(negb ({arith_expr(left, names)} =? {arith_expr(right, names)}))')
-                    left = right
-                    continue
-                raise TranslateError(f'unsupported comparison {ast.dump(op)}')
-            parts.append(f'({arith_expr(left, names)} {sym} {arith_expr(right, names)})')
-            left = right
-        return '(' + ' && '.join(parts) + ')'
-    raise TranslateError(f'unsupported boolean expression {ast.dump(node)}')
-
-
-def arith_expr(node, names):
-    if isinstance(node, ast.Constant) and isinstance(node.value, int) \
-            and not isinstance(node.value, bool):
-        return zlit(node.value)
-    if isinstance(node, ast.Name) and node.id in names:
-        return node.id
-    if isinstance(node, ast.UnaryOp) and isinstance(node.op, ast.USub):
-        return f'(- {arith_expr(node.operand, names)})'
-    if isinstance(node, ast.BinOp) and isinstance(node.op, (ast.Add, ast.Sub, ast.Mult)):
-        sym = {ast.Add: '+', ast.Sub: '-', ast.Mult: '*'}[type(node.op)]
-        return f'({arith_expr(node.left, names)} {sym} {arith_expr(node.right, names)})'
-    raise TranslateError(f'unsupported arithmetic expression {ast.dump(node)}')
-
-
-def gen_bands(repo=None):
-    tree, _ = _parse('pybaselines/_banded_utils.py', repo)
-    out = ['(* GENERATED by tools/translate.py from pybaselines/_banded_utils.py -- do not edit *)',
-           'From Coq Require Import ZArith List Bool.',
-           'From PB Require Import lib.PySlice C11.Table.',
-           'Import ListNotations.', 'Open Scope Z_scope.', '']
-    # dispatch of diff_penalty_diagonals
-    fn = _func(tree, 'diff_penalty_diagonals')
-    args = [a.arg for a in fn.args.args]
-    if args != ['data_size', 'diff_order', 'lower_only', 'padding']:
-        raise TranslateError(f'diff_penalty_diagonals: unexpected signature {args}')
-    body = _body_wo_doc(fn)
-    names = {'data_size', 'diff_order'}
-    # 1: argument guards  if diff_order < 0: raise ... elif data_size <= 0: raise ...
-    guard = body[0]
-    guards = []
-    node = guard
-    while isinstance(node, ast.If):
-        if not (len(node.body) == 1 and isinstance(node.body[0], ast.Raise)):
-            raise TranslateError('diff_penalty_diagonals: guard is not a raise')
-        guards.append(bool_expr(node.test, names))
-        if len(node.orelse) == 1 and isinstance(node.orelse[0], ast.If):
-            node = node.orelse[0]
-        elif not node.orelse:
-            node = None
-        else:
-            raise TranslateError('diff_penalty_diagonals: unsupported guard chain')
-    out.append('Definition disp_rejects (data_size diff_order : Z) : bool := '
-               + ('(' + ' || '.join(guards) + ')' if guards else 'false') + '.')
-    # 2: three-way dispatch
-    disp = body[1]
-    if not (isinstance(disp, ast.If) and len(disp.orelse) == 1
-            and isinstance(disp.orelse[0], ast.If)):
-        raise TranslateError('diff_penalty_diagonals: dispatch is not if/elif/else')
-    first, second = disp, disp.orelse[0]
-
-    def _assigned_call(stmts, fname):
-        for st in stmts:
-            for n in ast.walk(st):
-                if isinstance(n, ast.Call) and isinstance(n.func, ast.Name) and n.func.id == fname:
-                    return True
-                if isinstance(n, ast.Call) and isinstance(n.func, ast.Attribute) \
-                        and n.func.attr == fname:
-                    return True
-        return False
-    if not _assigned_call(first.body, 'ones'):
-        raise TranslateError('diff_penalty_diagonals: first branch is not np.ones')
-    if not (_assigned_call(second.body, 'difference_matrix')
-            and _assigned_call(second.body, '_sparse_to_banded')):
-        raise TranslateError('diff_penalty_diagonals: second branch is not the general path')
-    # the general path must slice [diff_order:] under lower_only
-    ok_slice = False
-    for st in second.body:
-        if isinstance(st, ast.If) and isinstance(st.test, ast.Name) and st.test.id == 'lower_only':
-            for a in st.body:
-                if (isinstance(a, ast.Assign) and isinstance(a.value, ast.Subscript)
-                        and isinstance(a.value.slice, ast.Slice)
-                        and isinstance(a.value.slice.lower, ast.Name)
-                        and a.value.slice.lower.id == 'diff_order'
-                        and a.value.slice.upper is None):
-                    ok_slice = True
-    if not ok_slice:
-        raise TranslateError('diff_penalty_diagonals: general path lower slice not recognised')
-    out.append('Definition disp_identity (data_size diff_order : Z) : bool := '
-               + bool_expr(first.test, names) + '.')
-    out.append('Definition disp_general (data_size diff_order : Z) : bool := '
-               + bool_expr(second.test, names) + '.')
-    # else branch: {1: _diff_1_diags, ...}[diff_order](data_size, lower_only)
-    mapping = None
-    for st in second.orelse:
-        for n in ast.walk(st):
-            if isinstance(n, ast.Dict):
-                mapping = [(const_eval(k, {}), v.id) for k, v in zip(n.keys, n.values)
-                           if isinstance(v, ast.Name)]
-                if len(mapping) != len(n.keys):
-                    raise TranslateError('dispatch dict has non-name values')
-    if not mapping:
-        raise TranslateError('diff_penalty_diagonals: dispatch dict not found')
-    # last statements: _pad_diagonals(diagonals, padding, lower_only=lower_only); return
-    if not _assigned_call(body[2:], '_pad_diagonals'):
-        raise TranslateError('diff_penalty_diagonals: padding call not found')
-    out.append('')
-    for order, fname in mapping:
-        out.append(_band_table(tree, fname, order))
-    entries = '; '.join(f'({zlit(o)}, {f.strip("_")})' for o, f in mapping)
-    out.append(f'Definition disp_tables : list (Z * table) := [{entries}].')
-    return '\n'.join(out) + '\n'
-
-
-GENERATORS = {'GenBands': gen_bands}
+GENERATORS = {}
+for _p in sorted(glob.glob(os.path.join(os.path.dirname(os.path.abspath(__file__)), 'gen_*.py'))):
+    _m = importlib.import_module(os.path.basename(_p)[:-3])
+    GENERATORS.update(_m.GENERATORS)
 
 
 def write_if_changed(path, text):
@@ -337,7 +51,7 @@ def main(argv):
         path = os.path.join(ns.out, name + '.v')
         try:
             text = GENERATORS[name](ns.repo)
-        except (TranslateError, SyntaxError, OSError) as exc:
+        except (TranslateError, SyntaxError, OSError, KeyError, AttributeError, IndexError, ValueError, TypeError) as exc:
             print(f'TRANSLATE-REFUSED {name}: {exc}')
             # fail closed: remove the stale file so nothing is proved about old source
             if os.path.exists(path):
